@@ -918,3 +918,24 @@ pub(crate) fn same_bytes(got: &[u8], want: &[u8; WCAP], n: usize) -> bool {
 pub(crate) fn stub_from_utf8_unreached(v: &[u8]) -> Result<&str, core::str::Utf8Error> {
     Ok(unsafe { core::str::from_utf8_unchecked(v) })
 }
+
+// ---------------------------------------------------------------------------------------------
+// handshake slicing (projection only; see lib/overlay.py PROJECTION_RULES)
+// ---------------------------------------------------------------------------------------------
+pub(crate) static mut CUT_AFTER_CONNECT: bool = false;
+pub(crate) fn cut_after_connect() -> bool {
+    unsafe { CUT_AFTER_CONNECT }
+}
+
+pub(crate) static mut CK_PROPS: [Property<'static>; 2] = [Property::ReceiveMaximum(1), Property::ReceiveMaximum(1)];
+pub(crate) static mut CK_NPROPS: usize = 0;
+pub(crate) static mut CK_ITER_CALLS: u8 = 0;
+
+/// Stands in for `ack.properties.iter()` in the projected handshake: yields the ghost properties.
+#[allow(static_mut_refs)]
+pub(crate) fn stub_props_iter<'p>(_p: &'p crate::Properties<'_>) -> impl Iterator<Item = Result<Property<'static>, crate::PeerError>> + 'p {
+    unsafe {
+        CK_ITER_CALLS += 1;
+        CK_PROPS[..CK_NPROPS].iter().map(|p| Ok(p.clone()))
+    }
+}
